@@ -1,5 +1,31 @@
-from props import dagprop
+"""C03 — each distinct task runs at most once, and only if its result is needed.
+
+The scheduler part is `dagprop.run` (generated DAG cases with duplication and warm subsets, Lean run model, execution
+counters).  "A task whose result is already cached is loaded instead of executed" also holds for results that an EARLIER
+run_tasks call - another process, another backend, task objects rebuilt by cached_tasks - left in a real storage: the
+history families of props/c06x.py (the __main__ script run twice with spawn first / second; round trips run ->
+cached_tasks -> run_tasks(listed) over dict parameters with unsorted keys; confusable-task sequences) are run
+alongside, and every violation they label with C03 (run() called again although the result was stored) is reported here."""
+import threading
+
+from props import c06x, dagprop
+
+FAMILIES = ('confusable', 'script', 'round-trip')
+NOTE = ('history families of props/c06x.py over a real storage (__main__ script run twice, spawn first / second; round trips '
+        'run -> cached_tasks -> run_tasks(listed) with unsorted dict parameters; confusable-task sequences re-checked in a '
+        'fresh interpreter): a task whose result was stored is loaded, run() is not called again')
 
 
 def run(ctx):
-    return dagprop.run(ctx, 'C03')
+    if c06x.replay_kind(ctx) in c06x.KINDS:
+        return c06x.replay_result(c06x.run_for(ctx, 'C03', c06x.FAMILIES, 103))
+    if ctx.get('replay') or not ctx['driver_ok']:
+        return dagprop.run(ctx, 'C03')
+    box = {}
+    th = threading.Thread(target=c06x.run_for_thread, args=(ctx, 'C03', FAMILIES, 103, box))
+    th.start()
+    res = dagprop.run(ctx, 'C03')
+    th.join()
+    if 'x' not in box:
+        return dict(infra_error='the history families did not finish')
+    return c06x.merge_into(res, box['x'], NOTE)
